@@ -29,6 +29,7 @@ static std::string oracle(const Case& c) {
         m = arg & 7u; // the most recent call wins
     }
     if (!any) { polyseed_enable_features(0); m = 0; }
+    if (c.u("reinject")) { deps::inject(0); ev.count("re-injection-between-enabling-and-use"); }   // the enabled mask is library state of its own: injecting dependencies again must not touch it
     unsigned f = (unsigned)c.u("f") & 31u; bool ok = model::features_supported(f, m);
     std::string sec = c.bytes("secret"); sec.resize(19, '\0'); std::vector<uint8_t> sv(sec.begin(), sec.end());
     model::Seed ms = g::to_seed(sv, (int)(c.u("birthday") & 1023u), f);
@@ -101,7 +102,7 @@ static void run() {
         int n = *in_range<int>(1, 7); std::string calls;
         for (int i = 0; i < n; i++) calls += le32s(*rc::gen::weightedOneOf<unsigned>({{5, in_range<unsigned>(0, 8)}, {1, rc::gen::map(vf::u64(), [](uint64_t x) { return (unsigned)x; })}, {1, rc::gen::map(in_range<unsigned>(0, 8), [](unsigned x) { return x | 0xFFFFFFF8u; })}}));
         Case c; c.set("calls", hex(calls)); c.set("f", *in_range<unsigned>(0, 32)); c.set("hi", *in_range<unsigned>(0, 2)); c.set("secret", hex(*g::secret19())); c.set("birthday", (uint64_t)*g::birthday()); c.set("coin", (uint64_t)*g::coin());
-        c.set("lang", REG->at(*g::lang_index()).name_en); c.set("badcheck", *in_range<unsigned>(0, 2));
+        c.set("lang", REG->at(*g::lang_index()).name_en); c.set("badcheck", *in_range<unsigned>(0, 2)); if (*in_range<int>(0, 32) == 0) c.set("reinject", 1);
         set_current(c); std::string m = oracle(c); if (!m.empty()) VF_FAIL(c, m);
     });
 }
